@@ -44,6 +44,7 @@ type rEvent struct {
 	Hop  int
 	Text string
 	RA   *model.RA
+	Src  string // ra: the sender's address (without zone)
 }
 
 type rLog struct {
@@ -104,8 +105,12 @@ type probe struct {
 	lg *rLog
 }
 
-func newProbe(lg *rLog) (*probe, error) {
-	ifi, err := net.InterfaceByName("vb")
+func newProbe(lg *rLog) (*probe, error) { return newProbeOn("vb", "ra", lg) }
+
+// newProbeOn listens on the named end of the veth pair and logs every RA that
+// arrives there under the given event kind.
+func newProbeOn(name, kind string, lg *rLog) (*probe, error) {
+	ifi, err := net.InterfaceByName(name)
 	if err != nil {
 		return nil, err
 	}
@@ -121,7 +126,7 @@ func newProbe(lg *rLog) (*probe, error) {
 	p := &probe{c: c, ip: ip, lg: lg}
 	go func() {
 		for {
-			m, cm, _, err := c.ReadFrom()
+			m, cm, src, err := c.ReadFrom()
 			if err != nil {
 				return
 			}
@@ -130,7 +135,7 @@ func newProbe(lg *rLog) (*probe, error) {
 				continue
 			}
 			x := model.FromNDP(ra)
-			e := rEvent{Kind: "ra", Life: ra.RouterLifetime, RA: &x}
+			e := rEvent{Kind: kind, Life: ra.RouterLifetime, RA: &x, Src: src.WithZone("").String()}
 			if cm != nil {
 				e.Hop = cm.HopLimit
 				if cm.Dst != nil {
@@ -408,6 +413,80 @@ func TestVerifDaemon(t *testing.T) {
 					return "", ""
 				})
 			}
+		}
+	}
+
+	if prop == "C08" || prop == "C20" {
+		// Two advertising interfaces in one daemon (both ends of the veth pair):
+		// whether the signal means terminate or reload is one decision that every
+		// advertiser acts on - each sends its own final RA, or none does.
+		for name, sig := range sigs {
+			name, sig := name, sig
+			scen("signal/two-interfaces/"+name, func(id string, lg *rLog, p *probe) (string, string) {
+				_ = os.WriteFile("/proc/sys/net/ipv6/conf/vb/forwarding", []byte("1"), 0o644)
+				defer os.WriteFile("/proc/sys/net/ipv6/conf/vb/forwarding", []byte("0"), 0o644)
+				p2, err := newProbeOn("va", "ra2", lg)
+				if err != nil {
+					return "second probe: " + err.Error(), "inconclusive"
+				}
+				defer p2.c.Close()
+				llOf := func(n string) string { // EUI-64 link-local address of the interface
+					ifi, err := net.InterfaceByName(n)
+					if err != nil {
+						return ""
+					}
+					as, _ := ifi.Addrs()
+					for _, a := range as {
+						if ipn, ok := a.(*net.IPNet); ok && ipn.IP.IsLinkLocalUnicast() {
+							return ipn.IP.String()
+						}
+					}
+					return ""
+				}
+				vaLL, vbLL := llOf("va"), llOf("vb")
+				cfg := "[[interfaces]]\nnames = [\"va\", \"vb\"]\nadvertise = true\nmax_interval = \"4s\"\n  [[interfaces.prefix]]\n  prefix = \"2001:db8::/64\"\n[debug]\naddress = \"127.0.0.1:9430\"\nprometheus = true\n"
+				d, err := startDaemon(lg, dir, cfg)
+				if err != nil {
+					return err.Error(), "inconclusive"
+				}
+				defer d.kill()
+				if _, ok := lg.waitFor(func(e rEvent) bool { return e.Kind == "notify" && e.Text == "READY=1" }, -1, 8*time.Second); !ok {
+					return "READY=1 not announced within 8 s: " + lastLines(d.stderr.String(), 5), "inconclusive"
+				}
+				fromVA := func(e rEvent) bool { return e.Kind == "ra" && e.Src == vaLL }
+				fromVB := func(e rEvent) bool { return e.Kind == "ra2" && e.Src == vbLL }
+				if _, ok := lg.waitFor(fromVA, -1, 6*time.Second); !ok {
+					return "no RA from va seen on vb within 6 s", "inconclusive"
+				}
+				if _, ok := lg.waitFor(fromVB, -1, 6*time.Second); !ok {
+					return "no RA from vb seen on va within 6 s", "inconclusive"
+				}
+				time.Sleep(300 * time.Millisecond)
+				mark := len(lg.snapshot()) - 1
+				d.signal(sig)
+				if !d.waitExit(25 * time.Second) {
+					return "daemon did not exit within 25 s of SIG" + name, "no-exit"
+				}
+				time.Sleep(150 * time.Millisecond)
+				if d.code != 0 {
+					return fmt.Sprintf("daemon exited with status %d after SIG%s: %s", d.code, name, lastLines(d.stderr.String(), 5)), "exit-status"
+				}
+				zero := map[string]int{}
+				for _, e := range lg.snapshot() {
+					if e.Seq > mark && e.Life == 0 && (fromVA(e) || fromVB(e)) {
+						zero[e.Src]++
+					}
+				}
+				want := 1
+				if name == "HUP" {
+					want = 0
+				}
+				if zero[vaLL] != want || zero[vbLL] != want {
+					return fmt.Sprintf("after SIG%s the advertiser of va sent %d and the advertiser of vb sent %d zero-lifetime RAs, want %d each", name, zero[vaLL], zero[vbLL], want), "final-ra-count"
+				}
+				r.Count("two_interface_signal_scenarios_ok", 1)
+				return "", ""
+			})
 		}
 	}
 
